@@ -744,3 +744,63 @@ def check_placeholder_write_only(ctx, rep, rule):
                         '/'.join(sorted(names)), what), span_loc(sp), key='placeholder read back: %s' % what[:30])
     rep.good(rule, 'compiler::Compiler', 'placeholder constants', '%s: %d emissions, %d mentions examined; none is compared, directly or through values computed from it' % (
         ', '.join('%s=%d' % kv for kv in sorted(names.items())), nsites, nuse), 'src/compiler.rs')
+
+
+def check_array_text_complete(ctx, rep, rule):
+    """The text of an array shows every element, every time: in <Object as Display>::fmt (helpers spliced in), with the tag taken
+    to be Array,
+      A  every path that returns Ok looked at the elements (it calls as_vec and hands the view on: iter / split_first / len ..) -
+         an answer given without them (`[...]` for an array "already written") is not the array's text;
+      B  in the loop over the elements no turn skips the element's own text: every cycle through the loop header passes the call
+         that formats the element (Display::fmt of it, or the routine itself)."""
+    from mirlib import AbsInt, simp, callee_name
+    from rules.tables import TYPE
+    from rules import trm
+    F = ctx.facts()
+    fn = F.fn('<object::Object as core::fmt::Display>::fmt')
+
+    def decide(nm, argv, t):
+        if nm == 'object::Object::tag':
+            return ('enum', TYPE, 'Array')
+        return None
+    n_ok = 0
+    bad_paths = 0
+    lf = LocalFlow(fn)
+    from mirlib import op_base_local
+    for p in AbsInt(F, fn, decide_call=decide, max_paths=4000).run():
+        if p.exit != 'return':
+            continue
+        r = simp(p.env.get('_0'))
+        if isinstance(r, tuple) and r and ((r[0] == 'agg' and r[2] == 'Err') or r[0] == 'errof' or (r[0] == 'call' and 'from_residual' in r[1])):
+            continue
+        if isinstance(r, tuple) and r and r[0] == 'call' and r[1] != fn.path and not r[1].endswith(('write_str', 'write_char', 'write_fmt')) and 'fmt' not in r[1]:
+            pass
+        n_ok += 1
+        idx = next((i for i, c in enumerate(p.calls) if c[1].startswith('object::Object::as_vec')), None)
+        used = False
+        if idx is not None:
+            # the view is handed on: a later call of the path takes a local the view flows into
+            t0 = p.calls[idx][4]
+            M = lf.forward(t0['dest']['local']) if isinstance(t0, dict) and t0.get('dest') else set()
+            for c in p.calls[idx + 1:]:
+                t1 = c[4] if isinstance(c[4], dict) else {}
+                if any(op_base_local(a) in M for a in t1.get('args', [])):
+                    used = True
+                    break
+        if not used:
+            bad_paths += 1
+    rep.ob(n_ok > 0 and bad_paths == 0, rule, fn.path, 'every Ok path reads the elements',
+           '%d of %d paths that write an array return Ok without having looked at its elements' % (bad_paths, n_ok), fn.loc())
+    # B
+    E = {b for b, t in fn.calls() if callee_name(t).endswith('core::fmt::Display>::fmt') or callee_name(t) == fn.path
+         or callee_name(t) in (F.inlined.get(('lib', fn.path)) or [])}
+    nl = 0
+    for h, body in fn.natural_loops():
+        if not (set(body) & E):
+            continue
+        nl += 1
+        removed = set(E & set(body)) | trm.error_blocks(fn) | trm.error_then_try(fn, h, body)
+        cyc = trm.cycle_without(fn, h, body, removed)
+        rep.ob(cyc is None, rule, fn.path, 'element loop', 'every turn of the loop over the elements writes the element' if cyc is None else
+               'a turn of the loop over the elements can skip the element (blocks %s)' % cyc[:8], fn.loc())
+    rep.ob(nl >= 1 or bool(E), rule, fn.path, 'elements are written by the routine itself', '%d loop(s) over the elements, %d formatting call(s)' % (nl, len(E)), fn.loc())
